@@ -8,6 +8,7 @@ Rules compare shapes of code; several spellings of the same behaviour must there
     N10 X = p if c else q  /  return p if c else q  ->  the if-statement it abbreviates
     N12 [e(k) for k in (c0, c1)]  ->  [e(c0), e(c1)]                   (literal tuple / list of constants)
     N13 X = []; for T in IT: X.append(E)  ->  X = [E for T in IT]      (adjacent; also with one `if C:` around the append; T not read elsewhere)
+    N15 x = a.b.c; ...x...  ->  ...a.b.c...                             (x a single-assignment alias of a pure attribute chain whose base / prefixes are not reassigned)
     N14 np.zeros(shape=s) -> np.zeros(s); np.full(fill_value=c, shape=s) -> np.full(s, c); positional dtype -> dtype=   (numpy constructors in one spelling)
     N7  X = E; <statement reading X once>  ->  <statement with E>       (X bound once and read once; adjacent statements; applied repeatedly)
     N3  X = E; return X  ->  return E                             (adjacent statements; X not captured by a nested function)
@@ -117,6 +118,93 @@ class _Commute(ast.NodeTransformer):
 
 
 ENABLE_N7 = False   # inlining of single-use temporaries at AST level changes too much of what rules anchor on; the same spelling is looked through at the accessor level instead (wire.kw)
+
+
+ENABLE_N15 = True
+
+
+def _chain(e):
+    """'a.b.c' for a pure Name / Attribute chain with at least one attribute, else None"""
+    parts = []
+    while isinstance(e, ast.Attribute):
+        parts.append(e.attr)
+        e = e.value
+    if isinstance(e, ast.Name) and parts:
+        return ".".join([e.id] + parts[::-1])
+    return None
+
+
+def _propagate_aliases(f: ast.AST) -> int:
+    """N15: x = a.b.c (a pure attribute chain), x bound nowhere else, every read of x after that statement in the same block (at any depth), the chain's base never
+    rebound and no prefix of the chain assigned in the function  ->  the reads of x are reads of a.b.c and the assignment disappears."""
+    import copy
+    done = 0
+    params = {a.arg for a in f.args.posonlyargs + f.args.args + f.args.kwonlyargs} | ({f.args.vararg.arg} if f.args.vararg else set()) | ({f.args.kwarg.arg} if f.args.kwarg else set())
+    nested = [n for n in ast.walk(f) if n is not f and isinstance(n, (ast.FunctionDef, ast.AsyncFunctionDef, ast.Lambda, ast.ClassDef))]
+    nested_names = {m.id for n in nested for m in ast.walk(n) if isinstance(m, ast.Name)}
+    if any(isinstance(n, (ast.Global, ast.Nonlocal)) for n in ast.walk(f)):
+        return 0
+    while True:
+        stores = {}
+        attr_stores = set()
+        for n in ast.walk(f):
+            if isinstance(n, ast.Name) and isinstance(n.ctx, (ast.Store, ast.Del)):
+                stores.setdefault(n.id, []).append(n)
+            elif isinstance(n, ast.Attribute) and isinstance(n.ctx, (ast.Store, ast.Del)):
+                c = _chain(n)
+                if c:
+                    attr_stores.add(c)
+            elif isinstance(n, ast.arg) and n is not f.args:
+                pass
+        hit = None
+
+        def blocks(node):
+            for fld in ("body", "orelse", "finalbody"):
+                b = getattr(node, fld, None)
+                if isinstance(b, list) and b and isinstance(b[0], ast.stmt):
+                    yield b
+            if isinstance(node, ast.Try):
+                for h in node.handlers:
+                    yield h.body
+        todo = [f]
+        while todo and hit is None:
+            node = todo.pop()
+            if node is not f and isinstance(node, (ast.FunctionDef, ast.AsyncFunctionDef, ast.ClassDef)):
+                continue
+            for b in blocks(node):
+                for i, st in enumerate(b):
+                    todo.append(st)
+                    if hit is not None or not (isinstance(st, ast.Assign) and len(st.targets) == 1 and isinstance(st.targets[0], ast.Name)):
+                        continue
+                    x, ch = st.targets[0].id, _chain(st.value)
+                    if ch is None or x in params or x in nested_names or len(stores.get(x, ())) != 1:
+                        continue
+                    base = ch.split(".")[0]
+                    if base == x or base in stores or base in nested_names and False:
+                        continue
+                    prefixes = {".".join(ch.split(".")[:k]) for k in range(2, len(ch.split(".")) + 1)}
+                    if prefixes & attr_stores:
+                        continue
+                    after = {id(m) for s2 in b[i + 1:] for m in ast.walk(s2)}
+                    loads = [m for m in ast.walk(f) if isinstance(m, ast.Name) and m.id == x and isinstance(m.ctx, ast.Load)]
+                    if not loads or any(id(m) not in after for m in loads):
+                        continue
+                    hit = (b, i, x, st.value)
+        if hit is None:
+            return done
+        b, i, x, val = hit
+
+        class R(ast.NodeTransformer):
+            def visit_Name(self, n):
+                if n.id == x and isinstance(n.ctx, ast.Load):
+                    return ast.copy_location(copy.deepcopy(val), n)
+                return n
+        for k in range(i + 1, len(b)):
+            b[k] = R().visit(b[k])
+        del b[i]
+        if not b:
+            b.append(ast.Pass())
+        done += 1
 
 
 class _Passthrough:
@@ -334,6 +422,8 @@ class _Stmts:
             saved_counts = self._counts
             self._counts = None
             self.func = st
+            if ENABLE_N15:
+                _propagate_aliases(st)
             st.body = self.block(st.body)
             self.func = saved
             self._counts = saved_counts
